@@ -183,8 +183,26 @@ def base_env(case_dir, extra=None):
     return env
 
 
+RESOURCE_ERRORS = (b'Fork failed', b'Text file busy', b'Resource temporarily unavailable', b'Cannot allocate memory')
+
+
 def run_cicada(argv, case_dir, cwd=None, env=None, stdin=None, timeout=10.0, exe=None):
-    """Run the real binary once. argv excludes argv[0]. Returns a Run."""
+    """Run the real binary once (argv excludes argv[0]). A run that failed for lack of machine resources (fork failed,
+    helper binary being re-linked by a concurrent build) says nothing about the shell: it is repeated, up to twice,
+    with a fresh helper log."""
+    for attempt in range(3):
+        r = _run_cicada_once(argv, case_dir, cwd, env, stdin, timeout, exe)
+        if r.timed_out or not any(m in r.err for m in RESOURCE_ERRORS):
+            return r
+        time.sleep(0.2 * (attempt + 1))
+        try:
+            os.unlink(base_env(case_dir, env)['VH_LOG'])
+        except OSError:
+            pass
+    return r
+
+
+def _run_cicada_once(argv, case_dir, cwd=None, env=None, stdin=None, timeout=10.0, exe=None):
     exe = exe or CICADA
     e = base_env(case_dir, env)
     # hang budget: after 12 real timeouts in this check run, further runs are not started (they are reported as
